@@ -20,9 +20,20 @@ def main():
         (Lemma("st.bytes", {"b": Bytes(0, None)}, "spec.selftest_spec:lemma_bytes"), "unsat"),
         (Lemma("st.loop", {"n": Int(0, 12)}, "spec.selftest_spec:lemma_loop"), "unsat"),
     ]
+    # the termination rules must be able to FAIL: a timeout loop that never consults the clock has no variant,
+    # and a loop that outruns its stated turn bound is refuted (an engine that proves these is unsound)
+    from pyvc.driver import contract_driver
+    from pyvc.cdef import Contract, LoopSpec
+    S = "spec.selftest_spec:"
+    for name, tgt, want in (("st.var.ok", "wait_ok", "unsat"), ("st.var.bad", "wait_bad", "sat")):
+        cases.append((Contract(name, S + tgt, {"d": Int(0, 1000)}, ensures=[("nonneg", S + "ens_wait")], raises=(),
+                               loops={(S + tgt, 0): LoopSpec(S + "inv_wait", variant=S + "var_wait")}), want))
+    cases.append((Contract("st.turns.ok", S + "loopy", {"n": Int(0, 12)}, ensures=[("nonneg", S + "ens_wait")], raises=(), poll_bound=12), "unsat"))
+    cases.append((Contract("st.turns.bad", S + "loopy", {"n": Int(0, 12)}, ensures=[("nonneg", S + "ens_wait")], raises=(), poll_bound=3), "sat"))
     bad = 0
     for lm, want in cases:
-        res = explore(prog, lm.name, lemma_driver(prog, lm), timeout_ms=20000)
+        drv = contract_driver(prog, lm) if isinstance(lm, Contract) else lemma_driver(prog, lm)
+        res = explore(prog, lm.name, drv, timeout_ms=20000)
         sts = set(o.status for o in res.obligations)
         got = "sat" if "sat" in sts else ("unknown" if "unknown" in sts or res.unsupported else "unsat")
         if not res.obligations:
